@@ -13,6 +13,7 @@ mod egs;
 mod eg9;
 mod eg20;
 mod egt;
+mod eg14;
 
 fn main() {
     common::install_panic_hook();
@@ -34,6 +35,7 @@ fn main() {
         "eg9" => eg9::main(&a),
         "eg20" => eg20::main(&a),
         "egt" => egt::main(&a),
+        "eg14" => eg14::main(&a),
         "features" => {
             println!("checks={} explanations={}", cfg!(feature = "checks"), cfg!(feature = "explanations"));
         }
